@@ -36,7 +36,17 @@
 //	gor                                                          obs  left=<creator functions|->
 //	agent                                                        obs  hc=<gone|parked|spinning> usage=<gone|alive>
 //
-// every obs but gor/agent/panic ends with  h=<sid[!p|!b],…|-> u=<d<dest>:<sid.sid…>,…|->
+// agent cases (header kind=agent script=<o|O|p|P|f joined by '.', or ->: what the scripted OpAMP client answers
+// to each SendCustomMessage: accepted / pending, channel open (lower case) or already closed, failure):
+//
+//	agnew    the agent's two background loops are started (as connect() does)      obs  ok
+//	agadd    usage is recorded                                                     obs  loc=<idle|pending|sent> calls=<n> tick=<0|1> data=<cur><last>
+//	agtick   the usage ticker fires (capacity-1 channel, never blocks)             (same)
+//	agsent   the client closes the channel it returned last                        (same)
+//	agstop   Agent.Stop; bounded wait                                              obs  hc=<gone|parked|spinning> usage=<gone|idle|pending|sent>
+//	(after agstop the three environment ops answer  loc=<gone|…>)
+//
+// every obs but gor/agent/ag*/panic ends with  h=<sid[!p|!b],…|-> u=<d<dest>:<sid.sid…>,…|->
 // (handed to the transmission in this op, in order; batches the fake Honeycomb received, sorted).
 package main
 
@@ -55,6 +65,7 @@ import (
 
 	"github.com/jonboulle/clockwork"
 	"github.com/open-telemetry/opamp-go/client"
+	types2 "github.com/open-telemetry/opamp-go/client/types"
 	"github.com/open-telemetry/opamp-go/protobufs"
 	"github.com/tinylib/msgp/msgp"
 	"go.opentelemetry.io/otel/trace/noop"
@@ -365,6 +376,7 @@ type comp struct {
 	next  int
 	seed  uint64
 	fresh bool
+	agent bool
 }
 
 func (c *comp) newHistory(r *kit.Rng, maxLen int) {
@@ -426,14 +438,50 @@ func (c *comp) newHistory(r *kit.Rng, maxLen int) {
 
 // Gen: a history of ingestion operations is generated once and then cut at every prefix (the
 // crash points); each case is one prefix followed by a shutdown sequence.
+// newAgentHistory: a scripted OpAMP client and a sequence of usage recordings, usage ticks and
+// "message sent" events; Agent.Stop is requested at every prefix.
+func (c *comp) newAgentHistory(r *kit.Rng) {
+	n := r.Intn(5)
+	sc := make([]string, n)
+	for i := range sc {
+		sc[i] = []string{"o", "o", "p", "p", "p", "f", "O", "P"}[r.Intn(8)]
+	}
+	script := "-"
+	if n > 0 {
+		script = strings.Join(sc, ".")
+	}
+	c.hdr = "kind=agent script=" + script
+	ops := []string{"agnew"}
+	m := 3 + r.Intn(8)
+	for len(ops) < m {
+		ops = append(ops, []string{"agadd", "agtick", "agsent"}[r.Pick(30, 45, 25)])
+	}
+	c.hist = ops
+	c.next = 1
+	c.seed = r.Next()
+	c.agent = true
+}
+
 func (c *comp) Gen(r *kit.Rng, maxLen int, tier string) kit.Case {
 	if c.hist == nil || c.next > len(c.hist) {
-		c.newHistory(r, maxLen)
+		if r.Chance(50) {
+			c.newAgentHistory(r)
+		} else {
+			c.agent = false
+			c.newHistory(r, maxLen)
+		}
 	}
 	k := c.next
 	c.next++
 	tr := kit.NewRng(c.seed + uint64(k)*0x9e37)
 	ops := append([]string{}, c.hist[:k]...)
+	if c.agent {
+		ops = append(ops, "agstop")
+		if tr.Chance(20) {
+			ops = append(ops, "agtick", "agsent")
+		}
+		return kit.Case{Header: c.hdr, Ops: ops}
+	}
 	u := len(kit.KV(strings.Fields(c.hdr), "keep"))
 	late := func(n int) []string {
 		var o []string
@@ -493,6 +541,9 @@ type runner struct {
 }
 
 func (c *comp) NewCase(h []string) kit.Runner {
+	if kit.KV(h, "kind") == "agent" {
+		return &agentRunner{script: kit.KV(h, "script")}
+	}
 	atoi := func(k string, d int64) int64 {
 		v, err := strconv.ParseInt(kit.KV(h, k), 10, 64)
 		if err != nil {
@@ -957,10 +1008,9 @@ func findG(fn string, old map[string]bool) (state string, found bool) {
 	return "", false
 }
 
-// agentStop starts the agent's two background loops, calls the exported Stop and reports what has
-// become of them: gone, parked (blocked in the select) or spinning (running / runnable in every sample).
+// agentStop (op `agent`): start the agent's two background loops, call the exported Stop at once and
+// report what has become of them.
 func (r *runner) agentStop() string {
-	const hc, usage = "agent.(*Agent).healthCheck", "agent.(*Agent).reportUsagePeriodically"
 	old := map[string]bool{}
 	for _, g := range goroutines() {
 		old[g.id] = true
@@ -968,28 +1018,294 @@ func (r *runner) agentStop() string {
 	a := agent.VerifShutdownNewAgent(opampStub{}, clockwork.NewFakeClock())
 	r.agents = append(r.agents, a)
 	waitFor("agent loops to start", func() bool {
-		_, a := findG(hc, old)
-		_, b := findG(usage, old)
+		_, a := findG(fnHC, old)
+		_, b := findG(fnUsage, old)
 		return a && b
 	})
 	a.Stop()
-	usageState := "gone"
-	deadline := time.Now().Add(2 * time.Second)
+	hcS, usS := agentAfterStop(old, func() string { return "idle" })
+	if hcS == "spinning" {
+		a.Quiesce()
+	}
+	return "hc=" + hcS + " usage=" + usS
+}
+
+// stopAux stops the helpers the harness itself started around the two components.
+func (r *runner) stopAux() {
+	if r.auxStopped {
+		return
+	}
+	r.auxStopped = true
+	r.sf.Stop()
+	r.ps.Stop()
+	r.ptx.Stop()
+}
+
+// ---------------------------------------------------------------------------- agent histories
+
+// manualClock is clockwork's fake clock except that tickers are fired by hand: one call = one
+// non-blocking send on the ticker's capacity-1 channel, exactly what a real / fake ticker does.
+type manualClock struct {
+	*clockwork.FakeClock
+	mu      sync.Mutex
+	tickers map[time.Duration]*manualTicker
+}
+
+type manualTicker struct{ c chan time.Time }
+
+func (t *manualTicker) Chan() <-chan time.Time { return t.c }
+func (t *manualTicker) Reset(time.Duration)    {}
+func (t *manualTicker) Stop()                  {}
+
+func (m *manualClock) NewTicker(d time.Duration) clockwork.Ticker {
+	m.mu.Lock()
+	defer m.mu.Unlock()
+	t := &manualTicker{c: make(chan time.Time, 1)}
+	m.tickers[d] = t
+	return t
+}
+
+func (m *manualClock) ticker(d time.Duration) *manualTicker {
+	m.mu.Lock()
+	defer m.mu.Unlock()
+	return m.tickers[d]
+}
+
+// scriptedClient answers SendCustomMessage from the case's script; every other method of the
+// embedded nil interface would panic, except the two Agent.Stop uses.
+type scriptedClient struct {
+	client.OpAMPClient
+	mu     sync.Mutex
+	script []string
+	calls  int
+	last   chan struct{} // returned by the latest call (nil: none / failure)
+	open   bool          // … and not closed yet
+}
+
+var errScripted = fmt.Errorf("verif: scripted send failure")
+
+func (c *scriptedClient) SetHealth(*protobufs.ComponentHealth) error { return nil }
+func (c *scriptedClient) Stop(context.Context) error                 { return nil }
+
+func (c *scriptedClient) SendCustomMessage(*protobufs.CustomMessage) (chan struct{}, error) {
+	c.mu.Lock()
+	defer c.mu.Unlock()
+	out := "f"
+	if c.calls < len(c.script) {
+		out = c.script[c.calls]
+	}
+	c.calls++
+	if out == "f" {
+		c.last, c.open = nil, false
+		return nil, errScripted
+	}
+	ch := make(chan struct{})
+	c.last, c.open = ch, true
+	if out == "O" || out == "P" {
+		close(ch)
+		c.open = false
+	}
+	if out == "p" || out == "P" {
+		return ch, types2.ErrCustomMessagePending
+	}
+	return ch, nil
+}
+
+// sent closes the channel returned last, if it is still open.
+func (c *scriptedClient) sent() {
+	c.mu.Lock()
+	defer c.mu.Unlock()
+	if c.last != nil && c.open {
+		close(c.last)
+		c.open = false
+	}
+}
+
+func (c *scriptedClient) state() (calls int, open bool) {
+	c.mu.Lock()
+	defer c.mu.Unlock()
+	return c.calls, c.open
+}
+
+type agentRunner struct {
+	script  string
+	clock   *manualClock
+	cl      *scriptedClient
+	a       *agent.VerifShutdownAgent
+	old     map[string]bool
+	total   float64
+	stopped bool
+}
+
+const (
+	fnHC    = "agent.(*Agent).healthCheck"
+	fnUsage = "agent.(*Agent).reportUsagePeriodically"
+	fnSend  = "agent.(*Agent).sendUsageReport"
+)
+
+// usageLoop locates the usage goroutine: gone, or blocked/running and whether inside sendUsageReport.
+func (r *agentRunner) usageLoop() (alive, blocked, inSend bool) {
+	for _, g := range goroutines() {
+		if !r.old[g.id] && strings.Contains(g.text, fnUsage+"(") {
+			return true, g.state == "select" || g.state == "chan receive", strings.Contains(g.text, fnSend+"(")
+		}
+	}
+	return false, false, false
+}
+
+// loc waits until the usage loop cannot move any more and says where it is: idle (its own select,
+// no tick waiting), pending / sent (inside sendUsageReport, waiting on a channel that is still open;
+// which of the two follows from what the client answered last), gone.
+func (r *agentRunner) loc() string {
+	res := "?"
+	waitFor("usage loop to block", func() bool {
+		alive, blocked, inSend := r.usageLoop()
+		if !alive {
+			res = "gone"
+			return true
+		}
+		if !blocked {
+			return false
+		}
+		calls, open := r.cl.state()
+		if inSend {
+			if !open {
+				return false // the channel it waits on is closed: it is about to go on
+			}
+			res = "sent"
+			if calls >= 1 && calls <= len(r.cl.script) && (r.cl.script[calls-1] == "p" || r.cl.script[calls-1] == "P") {
+				res = "pending"
+			}
+			return true
+		}
+		if len(r.clock.ticker(agent.VerifShutdownUsageInterval).c) > 0 {
+			return false // it is about to take the tick
+		}
+		res = "idle"
+		return true
+	})
+	return res
+}
+
+func (r *agentRunner) obs() string {
+	l := r.loc()
+	if r.stopped {
+		return "loc=" + l
+	}
+	calls, _ := r.cl.state()
+	cur, last := r.a.HasData()
+	b := func(x bool) string {
+		if x {
+			return "1"
+		}
+		return "0"
+	}
+	return fmt.Sprintf("loc=%s calls=%d tick=%d data=%s%s", l, calls, len(r.clock.ticker(agent.VerifShutdownUsageInterval).c), b(cur), b(last))
+}
+
+func (r *agentRunner) Do(op []string) (string, bool) {
+	if op[0] != "agnew" && r.a == nil {
+		return "bad-op", true
+	}
+	switch op[0] {
+	case "agnew":
+		if r.a != nil {
+			return "bad-op", true
+		}
+		r.old = map[string]bool{}
+		for _, g := range goroutines() {
+			r.old[g.id] = true
+		}
+		r.clock = &manualClock{FakeClock: clockwork.NewFakeClock(), tickers: map[time.Duration]*manualTicker{}}
+		r.cl = &scriptedClient{}
+		if r.script != "-" && r.script != "" {
+			r.cl.script = strings.Split(r.script, ".")
+		}
+		r.a = agent.VerifShutdownNewAgent(r.cl, r.clock)
+		waitFor("agent loops to start", func() bool {
+			_, a := findG(fnHC, r.old)
+			_, b := findG(fnUsage, r.old)
+			return a && b && r.clock.ticker(agent.VerifShutdownUsageInterval) != nil && r.clock.ticker(agent.VerifShutdownHealthInterval) != nil
+		})
+		return "ok", true
+	case "agadd":
+		if !r.stopped {
+			r.total += 10
+			r.a.Add(r.total)
+		}
+		return r.obs(), true
+	case "agtick":
+		if !r.stopped {
+			select {
+			case r.clock.ticker(agent.VerifShutdownUsageInterval).c <- r.clock.Now():
+			default:
+			}
+		}
+		return r.obs(), true
+	case "agsent":
+		if !r.stopped {
+			r.cl.sent()
+		}
+		return r.obs(), true
+	case "agstop":
+		if r.stopped {
+			return "bad-op", true
+		}
+		r.a.Stop()
+		r.stopped = true
+		hcS, usS := agentAfterStop(r.old, func() string {
+			// still there: where is it stuck
+			alive, _, inSend := r.usageLoop()
+			if !alive {
+				return "gone"
+			}
+			if !inSend {
+				return "idle"
+			}
+			calls, _ := r.cl.state()
+			if calls >= 1 && calls <= len(r.cl.script) && (r.cl.script[calls-1] == "p" || r.cl.script[calls-1] == "P") {
+				return "pending"
+			}
+			return "sent"
+		})
+		if hcS == "spinning" {
+			r.a.Quiesce()
+		}
+		return "hc=" + hcS + " usage=" + usS, true
+	}
+	return "bad-op", true
+}
+
+// Close lets a loop that is still waiting for the client go on (the context is cancelled by then).
+func (r *agentRunner) Close() {
+	if r.a == nil {
+		return
+	}
+	if !r.stopped {
+		r.a.Stop()
+	}
+	r.cl.sent()
+}
+
+// agentAfterStop: bounded wait after Agent.Stop for the two loops to be gone.
+func agentAfterStop(old map[string]bool, where func() string) (hcState, usageState string) {
+	usageState = "gone"
+	deadline := time.Now().Add(250 * time.Millisecond)
 	for {
-		if _, alive := findG(usage, old); !alive {
+		if _, alive := findG(fnUsage, old); !alive {
 			break
 		}
 		if time.Now().After(deadline) {
-			usageState = "alive"
+			usageState = where()
 			break
 		}
 		time.Sleep(100 * time.Microsecond)
 	}
-	hcState := "gone"
+	hcState = "gone"
 	spinning, samples := 0, 0
 	deadline = time.Now().Add(40 * time.Millisecond)
 	for {
-		st, alive := findG(hc, old)
+		st, alive := findG(fnHC, old)
 		if !alive {
 			hcState = "gone"
 			break
@@ -1007,19 +1323,7 @@ func (r *runner) agentStop() string {
 		}
 		time.Sleep(time.Millisecond)
 	}
-	a.Quiesce()
-	return "hc=" + hcState + " usage=" + usageState
-}
-
-// stopAux stops the helpers the harness itself started around the two components.
-func (r *runner) stopAux() {
-	if r.auxStopped {
-		return
-	}
-	r.auxStopped = true
-	r.sf.Stop()
-	r.ps.Stop()
-	r.ptx.Stop()
+	return
 }
 
 func (r *runner) Close() {
